@@ -246,12 +246,22 @@ func includeHeader(hdr string, signedHdrs []string) bool {
 }
 
 func IsBigDataAction(ctx *fiber.Ctx) bool {
-	if ctx.Method() == http.MethodPut && len(strings.Split(ctx.Path(), "/")) >= 3 {
-		if !ctx.Request().URI().QueryArgs().Has("tagging") && ctx.Get("X-Amz-Copy-Source") == "" && !ctx.Request().URI().QueryArgs().Has("acl") {
-			return true
-		}
+	if ctx.Method() != http.MethodPut {
+		return false
 	}
-	return false
+	// only object uploads stream their body: a bucket URL written with a
+	// trailing slash ("/bucket/") has an empty key and is not one
+	pathParts := strings.Split(ctx.Path(), "/")
+	if len(pathParts) < 3 || pathParts[2] == "" {
+		return false
+	}
+	// object sub-resources whose handlers take a small document (or no
+	// body at all) read it through ctx.Body(), never through the body reader
+	args := ctx.Request().URI().QueryArgs()
+	if args.Has("tagging") || args.Has("acl") || args.Has("retention") || args.Has("legal-hold") {
+		return false
+	}
+	return ctx.Get("X-Amz-Copy-Source") == ""
 }
 
 // expiration time window
